@@ -1,1 +1,6 @@
 import PysamlModel.Props.C04
+#print axioms C04.C04_audience
+#print axioms C04.C04_destination
+#print axioms C04.C04_recipient
+#print axioms C04.C04_exact
+#print axioms C04.C04_model_meets_spec
